@@ -599,6 +599,24 @@ impl Check for C05 {
         if rng.chance(1, 10) {
             plan.consumer = Consumer::DropAt(rng.below(300));
         }
+        // sometimes notifications pile up while the application is not polling its receiver
+        // (or never does): the connection must go on idling and serving requests all the same
+        if rng.chance(1, 40) {
+            ctx.counters.bump("rare.notifications_pile_up_unpolled");
+            let n = *rng.pick(&[17usize, 33, 70, 130, 260]);
+            let start = rng.below(50);
+            plan.changes = (0..n)
+                .map(|i| ChangeEvent {
+                    at_ms: start + 2 * i as u64,
+                    names: vec![crate::session::mpd::SUBSYSTEMS[i % 14].to_string()],
+                })
+                .collect();
+            plan.consumer = if rng.chance(1, 2) {
+                Consumer::StartAt(start + 2 * n as u64 + 500)
+            } else {
+                Consumer::Never
+            };
+        }
         gen::tame_net_for_big_plans(&mut plan);
         ctx.about_to_eval(&plan);
         let (ev, out) = eval_with(&plan, oracle::check_c05, nt_c05);
